@@ -27,6 +27,7 @@ EXPLANATION = ("Configuration-specialised analysis of SequentialCB._results: for
                "terms of learner.learn(...) arguments and of the recorded reward/action/probability, predict-before-"
                "learn domination and one yield per interaction; plus the wiring of evaluate().")
 EXPLANATION += ' R8: an answer that is one of the offered objects is read as that action before any look-alike heuristic; R9: the action-encoding memo of Repr is keyed by the whole row.'
+EXPLANATION += ' R10: on batched data the recorded action/probability carry the batch marker (one row per interaction); R11: the three batch-order arms of _parse_pred agree.'
 
 SEQ = "coba/evaluators/sequential.py"
 LEARN = ["on", "off", "ips", ""]
